@@ -1,5 +1,7 @@
 import Proofs.RefineDone
 import Proofs.StatusModel
+import Proofs.SharedStorage
+import Proofs.SharedComplete
 
 /-!
 # C14 — Timeouts cancel cooperatively and every job ends in a terminal status
@@ -350,5 +352,137 @@ def badOrder : JobObs :=
     saw := false, pollsAgain := true, loopRan := true, tie := false, gathered := false, valueKept := true }
 example : checkStatusLog { jobs := [badLate], results := [0], complete := true } = false := by decide +kernel
 example : checkStatusLog { jobs := [badOrder], results := [], complete := false } = false := by decide +kernel
+
+end DH.Timeout
+
+/-! ### several evaluators attached to one storage and one `search_id` (`Model/SharedStorage.lean`)
+
+`wrun (winit Ws hpo specs) hist`: `Ws.length` evaluator objects (evaluator `k` with `Ws[k]` workers) created on one
+empty storage, after an arbitrary history `hist` of pairs (evaluator, act): any operation of `Model/Timeout.lean`
+(`timeout`, `submit`, `gather`, `close`, `settle`, `search`), `gather_other_jobs_done()`, the real `gather(...)`
+(local part, then the finished jobs of the other evaluators) and the real `search(...)` built on it — each with an
+arbitrary environment.  `jobs` of the world is the shared storage: `Job.log` records every status write to it, whoever
+made it. -/
+
+namespace DH.Timeout
+
+/-- **C14 (status only moves forward, also across evaluators).**  In every state reached by any history of operations
+of any number of evaluators attached to one storage — a second evaluator continuing the search of a first one whose
+timeout left CANCELLED jobs, evaluators taking turns, in any order and with any environment — the sequence of status
+writes of every job of the storage is `READY, RUNNING, DONE` or `READY, RUNNING, CANCELLING, CANCELLED` or a prefix,
+or `READY[, RUNNING], CANCELLED` (close), and the status in the storage is the last one written: no evaluator ever
+moves a status backwards (`CANCELLED → DONE`). -/
+theorem C14_shared_monotone (Ws : List Nat) (hpo : Bool) (specs : List Spec) (hist : List (Nat × Act)) :
+    ∀ j ∈ (wrun (winit Ws hpo specs) hist).jobs, Allowed j.log ∧ j.log.getLast? = some j.status :=
+  fun j hj => allowed_of_inv (allInv_wrun hist _ (allInv_winit Ws hpo specs) j hj)
+
+/-- **C14 (a terminal status is final).**  Once a job has been reported (gathered, or recorded by `close()`), its
+status is DONE or CANCELLED and its record in the storage — status, history of writes, output — is never touched again,
+whatever any evaluator attached to the storage does afterwards (`more`): the second search reports for it exactly
+what the first one left. -/
+theorem C14_shared_terminal_final (Ws : List Nat) (hpo : Bool) (specs : List Spec)
+    (hist more : List (Nat × Act)) (i : Nat) (j : Job)
+    (hj : (wrun (winit Ws hpo specs) hist).jobs[i]? = some j)
+    (hp : j.pc = .gathered ∨ j.pc = .closedOut) :
+    (j.status = .done ∨ j.status = .cancelled) ∧
+    (wrun (wrun (winit Ws hpo specs) hist) more).jobs[i]? = some j := by
+  have hi := allInv_wrun hist _ (allInv_winit Ws hpo specs)
+  refine ⟨terminal_of_reported (hi j (List.mem_of_getElem? hj)) hp, ?_⟩
+  refine wrun_keeps _ hi more i j hj ?_
+  rcases hp with h | h
+  · exact Or.inl h
+  · exact Or.inr (Or.inl h)
+
+/-- **C14 (`gather_other_jobs_done` only reads the statuses).**  In every reachable world, when an evaluator (any
+private state `l`) collects the jobs of the others, the storage is left exactly as it was — the `RUNNING → DONE`
+promotion never applies to a job whose output is stored — and its `jobs_done` grows by exactly the jobs it neither has
+in flight nor had gathered and whose output is stored, each once. -/
+theorem C14_other_gather_readonly (Ws : List Nat) (hpo : Bool) (specs : List Spec) (hist : List (Nat × Act))
+    (l : Local) (orep : List Nat) (s' : Ev)
+    (h : gatherOther (view (wrun (winit Ws hpo specs) hist) l) orep = some s') :
+    let w := wrun (winit Ws hpo specs) hist
+    s'.jobs = w.jobs ∧ s'.results = l.results ++ orep ∧ orep.Nodup ∧
+    ∀ i, i ∈ orep ↔ (i ∉ l.running ∧ i ∉ l.results ∧ ∃ j, w.jobs[i]? = some j ∧ collectable w.hpo j = true) := by
+  intro w
+  have hi : AllInv (view w l).jobs := allInv_wrun hist _ (allInv_winit Ws hpo specs)
+  obtain ⟨a, b, _, _⟩ := gatherOther_jobs hi h
+  obtain ⟨c, d, _⟩ := gatherOther_spec h
+  exact ⟨a, b, c, fun i => (d i).trans (mem_otherIds (view w l) i)⟩
+
+/-- **C14 (one evaluator alone).**  After any history of returned `search()` calls of a single evaluator, the real
+`search()` (which looks for jobs of other evaluators after every gather) is the `search` of the theorems above: nothing
+is ever collected from the storage, so `C14_complete`, `C14_returns`, … are statements about it. -/
+theorem C14_shared_single (W : Nat) (specs : List Spec) (hist : List SCall)
+    (hh : ∀ st ∈ (runSearches (init W true specs) hist).2, SettledStop st)
+    (c : Call) (reps : List (List Nat)) (drainRep : List Nat) :
+    searchO (runSearches (init W true specs) hist).1 c (reps.map (fun r => (r, []))) (drainRep, []) =
+      search (runSearches (init W true specs) hist).1 c reps drainRep :=
+  searchO_nil (runSearches_rep hist _ (rep_init W true specs) (allInv_init W true specs) hh).1 c reps drainRep
+
+/-- **C14 (completeness when a search is continued by other evaluators).**  Any number of evaluators on one storage
+(HPO jobs), any history of `search()` calls that returned, made by them in any order (`wsearches`: budget, strict,
+timeout, expired or not, any workers, run-functions, reports, values — 0 included): when a further `search()` of any
+of them returns, nothing is left running, its results hold every job that was ever submitted to the storage — its own
+and those of every other evaluator — exactly once (`Nodup`, exactly the ids `0 … jobs.length-1`), and every job of the
+storage is reported with status DONE or CANCELLED.  (Whether the call returns at all — `hang` inside a wait — is
+proved for one evaluator, `C14_returns`; here it is a hypothesis.) -/
+theorem C14_shared_complete (Ws : List Nat) (specs : List Spec) (hist : List WCall)
+    (hh : ∀ st ∈ (wsearches (winit Ws true specs) hist).2, SettledStop st)
+    (k : Nat) (l : Local) (hk : (wsearches (winit Ws true specs) hist).1.evs[k]? = some l)
+    (c : Call) (reps : List (List Nat × List Nat)) (drainRep : List Nat × List Nat)
+    (hs : SettledStop (searchO (view (wsearches (winit Ws true specs) hist).1 l) c reps drainRep).2) :
+    let s' := (searchO (view (wsearches (winit Ws true specs) hist).1 l) c reps drainRep).1
+    s'.running = [] ∧ s'.results.Nodup ∧ (∀ i : Nat, i < s'.jobs.length ↔ i ∈ s'.results) ∧
+    ∀ (i : Nat) (j : Job), s'.jobs[i]? = some j →
+      (j.pc = .gathered ∨ j.pc = .closedOut) ∧ (j.status = .done ∨ j.status = .cancelled) := by
+  intro s'
+  have hq := wsearches_quiet hist _ (quiet_winit Ws specs) hh
+  exact (quiet_searchO hq hk c reps drainRep hs).2
+
+/-- **C14 (verified checker of multi-evaluator histories).**  The executable checker that the harness runs on the
+status-write log of the shared storage and on every table returned by every evaluator decides exactly `SharedSpec`:
+every job's writes only moved forward; every table holds each job that was in the storage when it was returned exactly
+once, with a terminal status, classified as the property says, value kept (`LogSpec`); and the status a table reports
+for a job is the one the job actually reached (the last one written). -/
+theorem C14_shared_checker (o : SharedObs) : checkShared o = true ↔ SharedSpec o :=
+  checkShared_iff o
+
+/-! non-vacuity: evaluator 0 (2 workers) runs `search(timeout=2)`: job 0 DONE before the expiry, jobs 1 and 2 running
+at it (CANCELLED, values kept); evaluator 1 (1 worker) continues with `search(max_evals=1)`: its gather collects
+jobs 0, 1, 2 from the storage -/
+def specsS : List Spec := [⟨1, 1, false, 1⟩, ⟨5, 1, false, 2⟩, ⟨3, 1, false, 3⟩, ⟨1, 1, false, 4⟩]
+def histS : List (Nat × Act) :=
+  [(0, .searchO { timeout := some 2 } [([0], []), ([1, 2], [])] ([], [])),
+   (1, .searchO { maxEvals := 1 } [([3], [0, 1, 2])] ([], []))]
+
+open Status in
+example : (wrun (winit [2, 1] true specsS) histS).jobs.map (fun j => (j.log, j.pc)) =
+    [([ready, running, done], .gathered), ([ready, running, cancelling, cancelled], .gathered),
+     ([ready, running, cancelling, cancelled], .gathered), ([ready, running, done], .gathered)] := by decide +kernel
+example : (wrun (winit [2, 1] true specsS) histS).evs.map (fun l => (l.results, l.running)) =
+    [([0, 1, 2], []), ([3, 0, 1, 2], [])] := by decide +kernel
+/-- the second evaluator's gather found exactly the three jobs of the first one -/
+example : otherIds (view (wrun (winit [2, 1] true specsS) (histS.take 1)) { W := 1 }) = [0, 1, 2] := by
+  decide +kernel
+/-- the same history as `wsearches`: both calls return (timeout, budget); the second table is complete -/
+def histW : List WCall :=
+  [⟨0, { timeout := some 2 }, [([0], []), ([1, 2], [])], ([], [])⟩]
+example : (wsearches (winit [2, 1] true specsS) histW).2 = [.timeout] := by decide +kernel
+example : (searchO (view (wsearches (winit [2, 1] true specsS) histW).1 { W := 1 }) { maxEvals := 1 }
+    [([3], [0, 1, 2])] ([], [])).2 = .budget := by decide +kernel
+/-- what `gather_other_jobs_done` must not do: `CANCELLED → DONE` is not an allowed sequence of writes, and an
+observation with such a log, or with a table reporting DONE for a job that reached CANCELLED, is rejected -/
+example : monotoneB [.ready, .running, .cancelling, .cancelled, .done] = false := by decide +kernel
+def okJob (lg : List Status) (dl : Option Nat) (ret natEnd : Nat) (saw : Bool) : JobObs :=
+  { log := lg, start := 0, ret := ret, natEnd := natEnd, deadline := dl, saw := saw, pollsAgain := true,
+    loopRan := true, tie := false, gathered := true, valueKept := true }
+def jobsOk : List JobObs := [okJob logDone (some 3) 1 1 false, okJob logCancelled (some 3) 4 5 true]
+def jobsBack : List JobObs := [okJob logDone (some 3) 1 1 false, okJob (logCancelled ++ [.done]) (some 3) 4 5 true]
+def tabA : TableObs := { nJobs := 2, rows := [(0, .done), (1, .cancelled)] }
+def tabB : TableObs := { nJobs := 2, rows := [(1, .cancelled), (0, .done)] }
+def tabBad : TableObs := { nJobs := 2, rows := [(1, .done), (0, .done)] }
+example : checkShared { jobs := jobsOk, tables := [tabA, tabB] } = true := by decide +kernel
+example : checkShared { jobs := jobsOk, tables := [tabA, tabBad] } = false := by decide +kernel
+example : checkShared { jobs := jobsBack, tables := [tabA, tabBad] } = false := by decide +kernel
 
 end DH.Timeout
